@@ -721,6 +721,8 @@ def rule_membership(rep: Report, cu: CUnit) -> None:
              'segment, go right iff it is at or above its end, found otherwise) with a well-formed halving step', 3)
     S, E = 40, 50
     pts = [S - 1, S, S + 1, E - 1, E, E + 1]
+    for f_ in ('access_check', 'flat_seg_contains', 'word_is_valid'):
+        cu.inline_pure_locals(f_)                    # a named range test / a pointer to the probed segment reads as what it names
 
     def fold(ir: Any, env: Dict[str, int]) -> Optional[bool]:
         try:
